@@ -46,7 +46,9 @@ import (
 	"time"
 
 	schema "github.com/jsightapi/jsight-schema-core"
+	cbytes "github.com/jsightapi/jsight-schema-core/bytes"
 	jdoc "github.com/jsightapi/jsight-schema-core/formats/json"
+	ljson "github.com/jsightapi/jsight-schema-core/json"
 	"github.com/jsightapi/jsight-schema-core/notations/jschema"
 	"github.com/jsightapi/jsight-schema-core/notations/regex"
 	"github.com/jsightapi/jsight-schema-core/openapi"
@@ -166,6 +168,8 @@ func c11Build(c c11Case) *c11Obj {
 		}
 	case "doc":
 		o.doc = jdoc.New("doc", c.Text)
+	case "lit":
+		// a scalar literal: the package-level helpers work on the bytes directly
 	}
 	return o
 }
@@ -278,6 +282,22 @@ var c11OpsByKind = map[string][]c11Op{
 		{"RSchema.Example", func(o *c11Obj) (string, []byte, error) {
 			b, err := o.rs.Example()
 			return "", b, err
+		}},
+	},
+	"lit": {
+		{"GuessSchemaType", func(o *c11Obj) (string, []byte, error) {
+			t, err := schema.GuessSchemaType([]byte(o.text))
+			return string(t), nil, err
+		}},
+		{"json.NewNumber", func(o *c11Obj) (string, []byte, error) {
+			n, err := ljson.NewNumber(cbytes.NewBytes(o.text))
+			if err != nil {
+				return "", nil, err
+			}
+			return n.String() + " " + strconv.Itoa(int(n.LengthOfFractionalPart())), nil, nil
+		}},
+		{"json.Guess", func(o *c11Obj) (string, []byte, error) {
+			return ljson.Guess(cbytes.NewBytes(o.text)).JsonType().String(), nil, nil
 		}},
 	},
 	"doc": {
@@ -422,6 +442,11 @@ var c11Docs = []string{
 	`{"a": [1, 2, {"b": null}], "c": "sé\n", "d": -1.5e3, "e": true}`, `[[[[]]], {}, "x"]`, `{"a": 1,}`, `[1 2]`, `"lonely"`, ` 12.50 `, `{"k": {"k": {"k": [false]}}}`, `{"a": tru}`, ``,
 }
 
+var c11Lits = []string{
+	"42", "-1", "0", "1.5", "-0.25", "1e2", "1.5e1", "2.50E2", "12.50", "1e-3", "123456789012345678901234567890", "9223372036854775808", "0.000000000000000000001",
+	`"a"`, `"a.b"`, `"1e5"`, `"42"`, `""`, "true", "false", "null", "{", "[", "1e1000001", "1.", "-", "tru", `"abc`, "01", "1e99999999999999999999",
+}
+
 // c11Inputs picks the distinct cases of a batch.
 type c11Inputs struct {
 	corpus   []c11CorpusItem
@@ -473,12 +498,16 @@ func (in *c11Inputs) draw(kind string) c11Case {
 		return c
 	case "doc":
 		return c11Case{Kind: "doc", Text: in.text(8, c11Docs)}
+	case "lit":
+		return c11Case{Kind: "lit", Text: c11Lits[rng.IntN(len(c11Lits))]}
 	}
 	return c11Case{Kind: "schema", Text: in.text(1, []string{`{"a": 1}`, `[1, "x"] // {minItems: 1}`, `{"k": @t}`, `{`})}
 }
 
 func (in *c11Inputs) drawAny() c11Case {
-	switch x := in.rng.IntN(20); {
+	switch x := in.rng.IntN(22); {
+	case x >= 20:
+		return in.draw("lit")
 	case x < 8:
 		return in.draw("schema")
 	case x < 13:
@@ -686,22 +715,40 @@ func c11Reread(res []c11Res) {
 
 // ---- plan A: every goroutine works on its own objects -------------------------------------
 
-func (ch *c11Child) planOwn() {
+// planOwn: every goroutine works on objects of its own. In the cold variant the
+// concurrent phase is the first use this process makes of the library (whatever
+// the library sets up on first use is set up by racing goroutines), and the
+// sequential results are computed afterwards.
+func (ch *c11Child) planOwn(cold bool) {
 	rng := ch.rng
 	nd := 40 + rng.IntN(40)
 	cases := make([]c11Case, nd)
 	refs := make([][]string, nd)
+	unstable := make([]bool, nd)
 	ch.hooksQuiet()
-	for i := range cases {
+	seqRefs := func(i int, redraw bool) {
 		// a case whose three fresh sequential computations disagree is not used
 		for try := 0; ; try++ {
-			cases[i] = ch.in.drawAny()
+			if redraw {
+				cases[i] = ch.in.drawAny()
+			}
 			refs[i] = c11All(c11Build(cases[i]))
 			ch.out.SeqOps += 3 * int64(len(refs[i]))
 			if c11SameStrings(refs[i], c11All(c11Build(cases[i]))) && c11SameStrings(refs[i], c11All(c11Build(cases[i]))) || try > 50 {
 				break
 			}
 			ch.out.Counts["cases_dropped_sequentially_nondeterministic"]++
+			if !redraw {
+				unstable[i] = true
+				break
+			}
+		}
+	}
+	for i := range cases {
+		if cold {
+			cases[i] = ch.in.drawAny()
+		} else {
+			seqRefs(i, true)
 		}
 	}
 	G := ch.spec.G
@@ -711,7 +758,11 @@ func (ch *c11Child) planOwn() {
 		ci := rng.IntN(nd)
 		g := rng.IntN(G)
 		work[g] = append(work[g], ci)
-		total += len(refs[ci])
+		if cold {
+			total += 6
+		} else {
+			total += len(refs[ci])
+		}
 	}
 	results := make([][]c11Res, G)
 	ch.hooksConcurrent()
@@ -738,11 +789,20 @@ func (ch *c11Child) planOwn() {
 		results[g] = res
 	})
 	ch.hooksQuiet()
+	if cold {
+		ch.out.Counts["cold_batches_concurrent_phase_first"]++
+		for i := range cases {
+			seqRefs(i, false)
+		}
+	}
 	var stamps []c11Stamp
 	for g, res := range results {
 		for _, x := range res {
 			ch.out.Ops++
 			c := cases[x.ci]
+			if unstable[x.ci] {
+				continue
+			}
 			if x.op < 0 {
 				ch.judge("own", c, "build", refs[x.ci][0], x.dig, "", 400, func() string { return c11All(c11Build(c))[0] })
 				continue
@@ -950,6 +1010,10 @@ func c11TypeSets(rng *rand.Rand) []c11TypeSet {
 		{Root: "{\n \"k\": 1 // {type: \"@t\"}\n}", Type: n() + " // {min: 0}"},
 		{Root: "{\"a\": @t, \"b\": @gone}", Type: "{\"x\": 1}"},
 		{Root: "{ // {additionalProperties: \"@t\"}\n \"z\": 0\n}", Type: "{\"ap\": [@base]}", Bases: []typeDef{{Name: "@base", Text: "\"leaf\""}}},
+		// the shared type names a key: a union of string types, an alias, a string with rules
+		{Root: "{\"id\": " + n() + ", @t: 2}", Type: "@u | @v", Bases: []typeDef{{Name: "@u", Text: "\"abc\""}, {Name: "@v", Text: "\"de\" // {minLength: 1}"}}},
+		{Root: "{@t: [1], \"w\": @t}", Type: "@u", Bases: []typeDef{{Name: "@u", Text: "\"k" + n() + "\" // {regex: \"^k\"}"}}},
+		{Root: "{\n @t: {\"in\": @t} // {optional: true}\n}", Type: "\"key\" // {or: [{minLength: 2}, {type: \"email\"}]}"},
 	}
 }
 
@@ -1158,8 +1222,8 @@ func c11BatchMain(args []string) int {
 	ch.out.Overlaps = map[string]int64{}
 	ch.out.Incon = map[string]int64{}
 	ch.out.Counts = map[string]int64{}
-	if spec.Plan == "own" {
-		ch.planOwn()
+	if spec.Plan == "own" || spec.Plan == "own-cold" {
+		ch.planOwn(spec.Plan == "own-cold")
 	} else {
 		ch.planShared()
 	}
@@ -1278,7 +1342,7 @@ func c11ParseRace(text string) []c11Report {
 
 // ---- the worker shard -------------------------------------------------------------------------
 
-var c11Plans = []string{"own", "own", "own", "own", "own", "shared-jschema", "shared-jschema", "shared-rschema", "shared-enum", "shared-type"}
+var c11Plans = []string{"own", "own-cold", "own", "own-cold", "own", "shared-jschema", "shared-jschema", "shared-rschema", "shared-enum", "shared-type"}
 
 func c11MakeSpec(seed uint64, batch int) c11Spec {
 	rng := rand.New(rand.NewPCG(seed*0x9E3779B97F4A7C15+5, uint64(batch)+1))
@@ -1540,7 +1604,7 @@ func c11Death(log string) (fatal, site string) {
 // or a type/rule object registered in several roots.
 func c11PlanClass(plan string) string {
 	switch plan {
-	case "own":
+	case "own", "own-cold":
 		return "own"
 	case "shared-type":
 		return "shared-type"
